@@ -167,13 +167,53 @@ def entry_points(ck, w):
     return n
 
 
+def executables(ck, w):
+    """executable images through the iterator: state derived from an early block (entry point, module values) must survive suspension; every 2- and 3-block
+    partition at header-relevant cut points x every non-empty subset of not-ready iterator calls; the final observation must equal the uninterrupted scan of the
+    same partition, and - rules without strings - the whole-buffer scan"""
+    rules = EP_RULES % () + """
+import "elf" import "pe"
+rule epv { condition: entrypoint == 0x60 or entrypoint == 0x400 }
+rule elft { condition: elf.type == elf.ET_EXEC and elf.entry_point == 0x60 }
+rule pes { condition: pe.number_of_sections == 1 and pe.entry_point >= 0 }
+"""
+    rep = w.batch(["reset", "compiler 0", "add 0 - " + yv.hx(rules), "getrules 0 0", "cdestroy 0", "scanner 0 0"])
+    assert rep[2]["errors"] == 0, rep[2]
+    n = 0
+    for name, buf in (("ELF32", yv.blob("ELF32_FILE")), ("PE32", yv.blob("PE32_FILE"))):
+        L = len(buf)
+        whole = w.cmd("scan target=s0 via=mem data=" + yv.hx(buf))
+        wv = {m[1]: m[0] for m in whole["t"] if m[0] in ("m", "n")}
+        parts_list = [(c, L - c) for c in (16, 52, 64, 100, 200, L - 4)] + [(52, 48, L - 100), (64, 64, L - 128), (100, 100, L - 200)]
+        for parts in parts_list:
+            base = "scan target=s0 via=blocks data=%s blocks=%s" % (yv.hx(buf), ",".join(map(str, parts)))
+            ref = w.cmd(base)
+            rv = {m[1]: m[0] for m in ref["t"] if m[0] in ("m", "n")}
+            for rname in ("default:ep", "default:epv", "default:pe", "default:fs", "default:last", "default:first", "default:empty"):
+                if rname in ("default:ep", "default:epv") and parts[0] < (200 if name == "ELF32" else L - 4): continue       # the headers are cut: the entry point legitimately depends on the partition
+                if rv.get(rname) != wv.get(rname):
+                    ck.violation("C13:executable:partition-differs-from-mem:%s" % rname.split(":")[1], dict(image=name, blocks=parts, mem=wv, iterator=rv))
+            ncalls = len(parts) + 1
+            cmds, masks = [], []
+            for mask in range(1, 1 << ncalls):
+                cmds.append(base + " nr=" + ";".join("0.%d.1" % p_ for p_ in range(ncalls) if mask >> p_ & 1)); masks.append(mask)
+            for mask, r in zip(masks, w.batch(cmds)):
+                n += 1
+                if obs(r) != obs(ref) or any(c != [NOT_READY, 0] for c in r["calls"][:-1]):
+                    rr = {m[1]: m[0] for m in r["t"] if m[0] in ("m", "n")}
+                    diff = sorted(k.split(":")[1] for k in set(rv) | set(rr) if rv.get(k) != rr.get(k)) or ["calls-or-rc"]
+                    ck.violation("C13:executable:interrupted-differs:%s" % diff[0], dict(image=name, blocks=parts, notready_positions=[p_ for p_ in range(ncalls) if mask >> p_ & 1], uninterrupted=rv, interrupted=rr, calls=r["calls"]))
+    ck.sub("executables", executions=n)
+    return n
+
+
 def main():
     ck = yv.Check("C13", "model_checking")
     maxlen = 6 if ck.tier == "quick" else 8
     bufs = [bytes(t) for n in range(0, maxlen + 1) for t in itertools.product(b"ab", repeat=n)]
     w = yv.get_worker("plain")
     n_ep = entry_points(ck, w)
-    n_re = reiteration(ck, w)
+    n_re = reiteration(ck, w) + executables(ck, w)
     yv.drop_worker("plain")
     distinct = set(); calls = 0
     for res in yv.pmap(run_chunk, [(ck.tier, c) for c in yv.chunked(bufs, 4)], ck):
@@ -190,7 +230,7 @@ def main():
     ck.cov["rule"] = ("every buffer over {a,b} of length <= %d x every composition into <= 4 blocks x every non-empty subset of iterator calls "
                       "(first/next incl. the terminating call) answering not-ready 1x or 2x; states = distinct (block count, not-ready subset, "
                       "repeat) environment scripts that completed with the correct result; transitions = scan calls made; plus 8 entry "
-                      "points x 10 buffer sizes, plus the evaluation-time re-iteration sub-space" % maxlen)
+                      "points x 10 buffer sizes, plus the evaluation-time re-iteration sub-space, plus ELF / PE images in 9 partitions x every not-ready subset (entry point and module values must survive suspension)" % maxlen)
     ck.assumptions += ["multi-block partitions legitimately change which matches exist; interrupted scans are compared with the uninterrupted "
                        "scan of the same partition, single-block iterators with mem/file/fd"]
     ck.finish()
